@@ -5,20 +5,10 @@ import os
 
 VERIF = os.path.dirname(os.path.dirname(os.path.abspath(__file__)))
 
-CLAIMED = {
-    "C20": dict(
-        category="proof",
-        text="Coq theorems over executable models: ReadProgress histories (every reading = bytes fed since the previous one; "
-             "readings sum to the bytes fed) for all op sequences, and conservation of counted events for every interleaving of "
-             "any number of incrementing threads and dumps, stated on the reset/Inc programs regenerated from stats_tracker.go "
-             "on every run. Tie: correspondence of the models with the real ReadProgress (exhaustive short op sequences + random) "
-             "and with the real AppStats under a deterministic scheduler (every schedule of small configurations), plus stress.",
-        note="Trusts: Coq kernel + vm_compute; the go/ast translator of stats_tracker.go; the deterministic scheduler and the "
-             "verif yield hooks; sync/atomic being linearizable. Go int/uint64 modelled without wrap-around. Real goroutine "
-             "scheduling beyond SC interleavings of atomic operations is outside the model (stress only).",
-        technique="Coq proof (induction over histories / interleavings) + regenerated model (go/ast) + model-vs-code correspondence",
-        ref="5.C20"),
-}
+import glob
+CLAIMED = {}
+for f in sorted(glob.glob(os.path.join(VERIF, "tools", "props", "C*.manifest.json"))):
+    CLAIMED[os.path.basename(f).split(".")[0]] = json.load(open(f))
 
 PENDING = {}
 
